@@ -166,7 +166,14 @@ static void setData(lib::AnalogPayload& p, const RecipeFields& f)
 }
 static void setData(lib::CaptureModulePayload& p, const RecipeFields& f)
 {
-    p.setData(f.str[0], f.str[1], f.str[2], f.str[3], f.vendor);
+    if (f.cm.uptime & 1)
+    {
+        // the strings arrive as views that are not NUL-terminated
+        UnterminatedViews uv(f.str);
+        p.setData(uv.view[0], uv.view[1], uv.view[2], uv.view[3], f.vendor);
+    }
+    else
+        p.setData(f.str[0], f.str[1], f.str[2], f.str[3], f.vendor);
 }
 static void setData(lib::InterfacePayload& p, const RecipeFields& f)
 {
